@@ -134,7 +134,12 @@ static unsigned char *set_one_octet(OSSL_PARAM_BLD *build,
 
 	/* decode it */
 	str = json_string_value(val);
+	if (str == NULL)
+		return NULL;
+
 	bin = jwt_base64uri_decode(str, &len);
+	if (bin == NULL)
+		return NULL;
 
 	OSSL_PARAM_BLD_push_octet_string(build, ossl_name, bin, len);
 
@@ -343,7 +348,7 @@ int openssl_process_rsa(json_t *jwk, jwk_item_t *item)
 	if (alg) {
 		alg_str = json_string_value(alg);
 
-		if (alg_str[0] == 'P')
+		if (alg_str && alg_str[0] == 'P')
 			is_rsa_pss = 1;
 	}
 
